@@ -86,7 +86,7 @@ mod annotation {
 
 // ---- the parser, reduced to what the two productions use
 #[derive(Clone, Copy)]
-enum TokenOp { Colon, Arrow, Comma, RightBrace, Semicolon, RightParenthesis, GreaterThan, Other(u8) }
+enum TokenOp { Colon, Arrow, Comma, RightBrace, Semicolon, RightParenthesis, GreaterThan, Assign, Other(u8) }
 #[derive(Clone, Copy)]
 enum Keyword { If, Other(u8) }
 #[derive(Clone, Copy)]
@@ -563,6 +563,30 @@ fn fix_tparams_with_generic_annot(parser: &mut SourceParser, parameters: &mut Ve
 //@before InterfaceDeclarationCommon {
     assert(loc == joined(loc0, end_loc));
 //@end
+// ---- a member definition `function f(..): T = body` runs over its body
+//@extract crates/samlang-ast/src/source.rs :: struct ClassMemberDeclaration
+//@fields loc
+//@end
+//@extract crates/samlang-ast/src/source.rs :: struct ClassMemberDefinition
+//@end
+#[verifier::external_body]
+fn parse_class_member_declaration_common(parser: &mut SourceParser, allow_private: bool) -> (r: ClassMemberDeclaration) { unimplemented!() }
+
+//@extract crates/samlang-parser/src/source_parser.rs :: mod toplevel_parser / fn parse_class_member_definition
+//@ret r
+//@replace* super::SourceParser => SourceParser ## R1: module path
+//@replace super::expression_parser::parse_expression_with_additional_preceding_comments => parse_expression_with_additional_preceding_comments ## R1: module path
+//@contract
+    ensures
+      // the declaration part's range is extended over the body
+      encloses(r.decl.loc, r.body.range())
+        && exists|header: Location| r.decl.loc == #[trigger] joined(header, r.body.range()),  // :member_definition_range_runs_over_its_body
+//@before let (_, additional_comments) =
+    let ghost header = decl.loc;
+//@before ClassMemberDefinition { decl, body }
+    assert(decl.loc == joined(header, body.range()));
+//@end
+
 
 // =====================================================================================
 // the language server's position -> node search: a name's range is the name, nothing more
